@@ -60,5 +60,13 @@ _e("C17", "runtime post-condition monitor with exact-rational expected counts",
    "threshold_proportional for every p=j/64 (p x N exactly representable, round-half-up demanded strictly), strongest "
    "kept, values unchanged, symmetry, diagonal; threshold_absolute at and between occurring weights; binarize / "
    "normalize / invert (and its involution) / weight_conversion dispatch; copy=True / copy=False object semantics")
+_e("C02", "runtime post-condition monitor with an independent modularity oracle, injected node-visiting schedules",
+   "labels exactly 1..k and returned q equal to the modularity recomputed from the definition (every objective, qtype and "
+   "gamma) for the returned partition, level by level for hierarchical output; given-partition routines must score that "
+   "partition; known finding: modularity_louvain_dir beyond its first aggregation level")
+_e("C07", "runtime post-condition monitor scoring start and result with the same independent oracle; re-feed chains",
+   "Q_def(result) >= Q_def(start) - 1e-9 for the seven deterministic-gain optimisers from default, planted, random, "
+   "near-optimal and own-output starts; strictly increasing hierarchical levels; chains of three re-feeds; known finding: "
+   "modularity_louvain_dir beyond its first aggregation level")
 
 NOT_APPLICABLE = []
